@@ -1522,7 +1522,11 @@ pub fn c03(r: &mut Rng, out: &mut Out, n: usize) {
 /// "surface data coherent": pairs of opposite rays reaching the same surface point from both sides
 pub fn c13(r: &mut Rng, out: &mut Out, n: usize) {
     let mut st = Stats::new();
-    for _ in 0..(n + 1) / 2 {
+    for i in 0..(n + 1) / 2 {
+        // rays through (or next to) a pole of the sphere: the parametrisation is singular there
+        if i % 20 == 0 {
+            pole_probe(r, out, &mut st);
+        }
         let kind = r.pick(&[0, 0, 1, 1, 2, 2, 2, 3, 3, 3, 4]);
         let legal = r.below(40) != 0;
         let spec = gen_spec(r, kind, legal, 4);
